@@ -3,6 +3,7 @@ CONSTANTS
   N <- EnvN
   W <- EnvW
   Bug <- EnvBug
+  FullOps <- EnvFull
 VIEW IView
 INVARIANT Refines
 CHECK_DEADLOCK FALSE
